@@ -22,6 +22,11 @@ def specs(tier):
     out += c14.specs()
     # inheritance and getProperties: C07 tasks with C01-tagged clauses
     out.append(TaskSpec("inheritance", "contracts.publish", "task_inheritance", (), replay_kind="driver.inheritance"))
+    # (P) content of the messages the mutators send, and the handshake answer: C07 tasks, clauses tagged C01
+    out.append(TaskSpec("getProperties", "contracts.publish", "task_get_properties", (), replay_kind="driver.publish"))
+    for k in D.KINDS:
+        for w in ("to_def_message", "to_set_message"):
+            out.append(TaskSpec("vector[%s.%s]" % (k, w), "contracts.publish", "task_vector", (k, w), replay_kind="driver.publish"))
     return out
 
 
